@@ -250,7 +250,7 @@ func whyClass(why string) string {
 // judge returns ("", "") when the case is fine, otherwise the class and an explanation
 func judge(c *Case) (string, string) {
 	impl := c.impl
-	for _, bad := range []string{"PANIC", "HANG", "CRASH", "LOOP", "NEWERR-WITH-TEMPLATE", "OUTPUT-WITH-ERROR"} {
+	for _, bad := range []string{"PANIC", "HANG", "CRASH", "LOOP", "NEWERR-WITH-TEMPLATE", "OUTPUT-WITH-ERROR", "MUTATED"} {
 		if strings.Contains(" "+impl, " "+bad) || strings.HasPrefix(impl, bad) {
 			return "property", "the implementation did not return normally: " + clip(impl, 300)
 		}
